@@ -22,6 +22,12 @@ for s in "$@"; do
     C14) run C14 C14 ;;
     C15) run C15 C15 ;;
     C17) run C17 C17 ;;
+    C01b) run C01b C12 C05 ;;
+    C02b) run C02b C05 ;;
+    C06b) run C06b C08 C06 ;;
+    C07b) run C07b C07 ;;
+    C12b) run C12b C12 ;;
+    C15b) run C15b C15 ;;
   esac
 done
 echo DONE >> /tmp/seed_results.txt
